@@ -10,10 +10,12 @@ COMMON_TRUST = [
 PROPS = {}
 
 PROPS["C14"] = dict(
-    units=[("verus", "bytecode"), ("kani", "codec")],
+    units=[("verus", "bytecode"), ("kani", "codec"), ("verus", "emitter")],
     explanation="make/read_operands/DEFINITIONS/Opcode::from verified mutually inverse for every opcode and every "
                 "operand value that fits its width (lemma_roundtrip), and an operand that does not fit is never "
-                "recovered (lemma_unfit_not_recovered), so silent truncation is a decode mismatch.",
+                "recovered (lemma_unfit_not_recovered), so silent truncation is a decode mismatch. emit/change_operand/patch_jump record "
+                "a compile error for every operand that does not fit its width (operands_fit == the spec predicate), and compile() "
+                "returns Err whenever one was recorded.",
     not_covered=["that each compile_* call site passes the operand count of its opcode to emit",
                  "the VM's inline operand decoding (vmarms unit, when built)"],
     assumptions=["lazy_static evaluates the DEFINITIONS initializer exactly once and DEFINITIONS.get is HashMap::get on it (R6)",
@@ -88,8 +90,8 @@ PROPS["C10"] = dict(
 )
 
 PROPS["C13"] = dict(
-    units=[("verus", "vmcore"), ("verus", "bytecode")],
-    explanation="make() records the given line for every byte of an instruction; every RTError built by the verified VM helpers "
+    units=[("verus", "vmcore"), ("verus", "bytecode"), ("verus", "emitter")],
+    explanation="emit/add_instruction/replace_instruction/change_operand/patch_jump/remove_last_pop keep lines.len() == code.len() and never change the line of a surviving byte; make() records the given line for every byte of an instruction; every RTError built by the verified VM helpers "
                 "(push/pop/top, call_func, call_builtin, push_closure, binary_op, bitwise_op, exec_call, push_frame) carries the line argument.",
     not_covered=["that the compiler passes the right token's line to emit", "errors built inside the opcode arms (vmarms unit, when built)"],
     assumptions=[],
